@@ -16,7 +16,7 @@ TEXT = {
  "C06": "Theorems: without --overwrite any existing destination (lexists) makes the restore fail before any call, under every fault oracle; a multi-index selection stops there; the command exits 1; with --overwrite a non-directory payload replaces an existing regular file. Tied to /repo by restore worlds with destinations of every kind.",
  "C07": "Theorems: home path from the environment (empty XDG_DATA_HOME = unset), candidate order, gates, rejected candidates are left untouched, created directories are 0700, the lexical volume ascent returns the device root on plain canonical paths. Tied to /repo by world runs over the configuration lattice with an independent device-level table (C07.expected) as oracle.",
  "C08": "Theorems: trash-put's security check rejects $topdir/.Trash/$uid exactly when $topdir/.Trash is a symlink, not a directory or not sticky; the scanner of list/empty/rm and trash-restore never yield it then; trash-list reports it. Tied to /repo by runs of all five commands on worlds with every .Trash state and a populated .Trash/$uid.",
- "C09": "Theorems: trash-list is a function of the bag; the put core adds exactly one element; purge and restore cores remove exactly the selected one (per-command refinement steps). The composition over whole histories is validated: seeded histories, after every step listing = Effects.bagLines of the on-disk state and model transition = implementation transition.",
+ "C09": "Theorems: trash-list is a function of the bag; the put core adds exactly one element; purge and restore cores remove exactly the selected one; C09Hist.history: induction over any history of put/purge/restore operations on a trash directory (invariant + local side conditions) - the bag is the fold of the abstract add/remove steps, and the listing shows exactly the live names (list_after_history). The string-level front of each command is validated: seeded histories, after every step listing = Effects.bagLines of the on-disk state, the step's effect judged by Effects.check, model transition = implementation transition.",
  "C10": "Theorems: the model of older_than agrees with an independent day-by-day calendar for every DAYS, current time and date; boundary kept, one second older purged, future kept, antitone in DAYS; only the first DeletionDate line counts. Tied to /repo by an exhaustive boundary-grid differential check and by trash-empty world runs whose effects are checked against ground-truth dates.",
  "C11": "Theorems (every fault oracle): rmtree / remove_file2 / remove_file_if_exists / remove_file change no path outside the subtree they are given; a symlink payload is unlinked; the payload path of an accepted info name lies under files/. Tied to /repo by trash-rm / trash-empty runs on trash contents full of symlinks to sentinels, checking every path outside files/ and info/.",
  "C12": "Theorems: the greedy matcher mirroring fnmatch.translate decides a declarative matching relation for every pattern and string; literal patterns match only themselves; subject = full path iff the pattern starts with '/'. Tied to /repo by an exhaustive differential check of Filter.matches over small alphabets and by trash-rm world runs.",
